@@ -4,11 +4,13 @@
   32 bytes, every 12-byte nonce and R ∈ {8, 12, 20} the IETF `ChaCha<R>` context refines the absolute keystream
   position.  Also: the blockwise `…Fast` evaluation used by the driver equals the Spec.
 
-  `MacDeps` (Poly1305 = RFC 8439 §2.5 for every chunking) stays a hypothesis until the poly1305 unit delivers C05.
+  `MacDeps` (Poly1305 = RFC 8439 §2.5 for every chunking) is discharged by the poly1305 unit's
+  `Cx.Proofs.Poly1305.mac_eq` (C05): `macDeps`.
 -/
 import CxVerif.Proofs.Aead
 import CxVerif.Proofs.StreamEngine
 import CxVerif.Proofs.StreamFast
+import CxVerif.Proofs.Poly1305Stream
 namespace Cx.Proofs.Aead
 open Cx Cx.Impl Cx.Impl.ChaCha
 set_option linter.unusedSimpArgs false
@@ -33,6 +35,9 @@ theorem with_cipher {P : Prop} (S : Cx.Proofs.ChaCha.EngineSim E α) {R : Nat} {
     (f : ∀ At, CipherDeps E R key nonce At → P) : P := by
   obtain ⟨At, D⟩ := cipherDeps S R key nonce hk hn hR
   exact f At D
+
+/-- the poly1305 unit's C05 theorem, in the shape the AEAD proofs use -/
+theorem macDeps : MacDeps := ⟨fun key chunks _ => Cx.Proofs.Poly1305.mac_eq _ key chunks⟩
 
 /-- the driver's blockwise evaluation is the Spec -/
 theorem cipherFast_eq (R : Nat) (key nonce data : Bytes) :
